@@ -175,7 +175,7 @@ pub fn run(ctx: &Ctx) {
         }
     }
     // deterministic pseudo-random longer programs (4..=12 ops) over the same palette plus pushes with every byte value in the immediate
-    let count = if ctx.thorough { 120_000u64 } else { 15_000 };
+    let count = if ctx.thorough { 120_000u64 } else { 40_000 };
     for seed in 1..=count {
         let id = format!("exec-random/{seed}");
         if !ctx.want(&id) {
